@@ -433,6 +433,9 @@ func (c08) Exec(sci interface{}, env *Env) *Violation {
 		if !world.SameRequest(tw.CPU.Interrupt, rn.CPU.Interrupt) {
 			return viol("twin-pending", "%s: pending request %s vs %s", what, world.FmtRequest(tw.CPU.Interrupt), world.FmtRequest(rn.CPU.Interrupt))
 		}
+		if tw.Mutated != "" || rn.Mutated != "" {
+			return viol("request-value-modified", "%s: %s%s", what, tw.Mutated, rn.Mutated)
+		}
 		if tw.StaleCount() != 0 || rn.StaleCount() != 0 {
 			return viol("stale-device", "%s: %d/%d accesses went through Memory/IO values the host had replaced", what, tw.StaleCount(), rn.StaleCount())
 		}
